@@ -429,6 +429,14 @@ func reifyValue(
 			return reflect.Value{}, err
 		}
 		return pointerize(t, baseType, v), nil
+
+	case reflect.Array:
+		// a fresh fixed-size array (behind a nil pointer, or as a map value)
+		v, err := reifyArray(opts, reflect.New(baseType).Elem(), baseType, val)
+		if err != nil {
+			return reflect.Value{}, err
+		}
+		return pointerize(t, baseType, v), nil
 	}
 
 	return reifyPrimitive(opts, val, t, baseType)
